@@ -618,7 +618,12 @@ func c20Payment(c *core.Ctx) {
 		}
 		for i, a := range accs {
 			// PaymentLine.calculate is itself the per-line step
-			if why := everyIterationOf(p, fd.Pkg.TypesInfo, fd.Decl.Body, a.Assign, nilTestOfOperandsIn(fd.Pkg.TypesInfo, fd.Decl.Body, a.Assign), spec.recv == "PaymentLine"); why != "" {
+			base := nilTestOfOperandsIn(fd.Pkg.TypesInfo, fd.Decl.Body, a.Assign)
+			acc := a
+			allow := func(cond ast.Expr, then bool) bool {
+				return base(cond, then) || firstIterationSeed(fd.Pkg.TypesInfo, fd.Decl.Body, cond, acc)
+			}
+			if why := everyIterationOf(p, fd.Pkg.TypesInfo, fd.Decl.Body, a.Assign, allow, spec.recv == "PaymentLine"); why != "" {
 				c.Ob("C20-R5", fmt.Sprintf("%s#%s%d:%s#every-line", fd.Name(), strings.ToLower(a.Op), i+1, types.ExprString(a.Dest)), a.Assign.Pos(), false,
 					"the accumulation is not executed for every line: "+why)
 			}
@@ -688,4 +693,57 @@ func c20Payment(c *core.Ctx) {
 	}
 	c.Ob("C20-R6", fd.Name()+"#tax-fold", fd.Decl.Pos(), okMerge && okSeed && okClone && okCalc,
 		fmt.Sprintf("the payment's tax summary is not the Merge fold over clones of each recalculated line document summary (merge=%v seed=%v clone=%v recalculated=%v)", okMerge, okSeed, okClone, okCalc))
+}
+
+
+// firstIterationSeed: the condition is `<range index> == 0` (or != / > 0) of the
+// loop that contains the accumulation, and the other branch of that if
+// statement seeds the accumulator with the very addend (`sum = x` on the first
+// element, `sum = sum.Add(x)` afterwards): every element is still counted once.
+func firstIterationSeed(info *types.Info, body *ast.BlockStmt, cond ast.Expr, a Accum) bool {
+	be, ok := ast.Unparen(cond).(*ast.BinaryExpr)
+	if !ok {
+		return false
+	}
+	iv := core.VarOf(info, be.X)
+	if tv, ok := info.Types[be.Y]; iv == nil || !ok || tv.Value == nil || tv.Value.String() != "0" {
+		return false
+	}
+	switch be.Op {
+	case token.EQL, token.NEQ, token.GTR:
+	default:
+		return false
+	}
+	res := false
+	ast.Inspect(body, func(n ast.Node) bool {
+		rs, ok := n.(*ast.RangeStmt)
+		if !ok || core.VarOf(info, rs.Key) != iv {
+			return true
+		}
+		ast.Inspect(rs.Body, func(m ast.Node) bool {
+			is, ok := m.(*ast.IfStmt)
+			if !ok || is.Cond != cond {
+				return true
+			}
+			eb, _ := is.Else.(*ast.BlockStmt)
+			if eb == nil {
+				return true
+			}
+			seedBlk, accBlk := is.Body, eb
+			if be.Op != token.EQL {
+				seedBlk, accBlk = eb, is.Body
+			}
+			if !(accBlk.Pos() <= a.Assign.Pos() && a.Assign.End() <= accBlk.End()) {
+				return true
+			}
+			for _, s := range seedBlk.List {
+				if as, ok := s.(*ast.AssignStmt); ok && len(as.Lhs) == 1 && len(as.Rhs) == 1 && sameLoc(info, as.Lhs[0], a.Dest) && sameExpr(as.Rhs[0], a.Addend) {
+					res = true
+				}
+			}
+			return true
+		})
+		return true
+	})
+	return res
 }
